@@ -38,6 +38,9 @@ type Engine struct {
 	privateNext   bool
 	noLoopFrame   bool
 	gnnCache      map[string]bool
+	atomicInvs    map[string]*AtomicInv
+	fieldCons     []*FieldConstraint
+	fieldConByKey map[string]*FieldConstraint
 }
 
 func (e *Engine) typeID(t types.Type) *Term {
@@ -264,6 +267,9 @@ func LoadEngine(repoDir string, patterns []string, mirrorDir string) (*Engine, e
 			e.addContractFile(cf)
 		}
 	}
+	if err := e.resolveFieldConstraints(); err != nil {
+		return e, err
+	}
 	return e, nil
 }
 
@@ -276,6 +282,15 @@ func (e *Engine) addContractFile(cf *ContractFile) {
 		e.ghosts[g.Name] = g
 	}
 	e.lemmas = append(e.lemmas, cf.Lemmas...)
+	for _, fc := range cf.FieldCons {
+		e.fieldCons = append(e.fieldCons, fc)
+	}
+	for _, ai := range cf.AtomicInvs {
+		if e.atomicInvs == nil {
+			e.atomicInvs = map[string]*AtomicInv{}
+		}
+		e.atomicInvs[ai.Key] = ai
+	}
 	e.pins = append(e.pins, cf.Pins...)
 	for name := range cf.Recursive {
 		e.recursiveSpec[cf.Pkg+"."+name] = true
@@ -407,4 +422,42 @@ func (e *Engine) globalNonNil(pkg *ssa.Package, name string) bool {
 	}
 	e.gnnCache[key] = res
 	return res
+}
+
+// resolveFieldConstraints maps "Type.field" to heap keys (after packages are loaded).
+func (e *Engine) resolveFieldConstraints() error {
+	e.fieldConByKey = map[string]*FieldConstraint{}
+	for _, fc := range e.fieldCons {
+		sp := e.spkgs[fc.Pkg]
+		if sp == nil {
+			return fmt.Errorf("field-constraint %s: package not loaded", fc.Key)
+		}
+		i := strings.Index(fc.Key, ".")
+		tn, fn := fc.Key[:i], fc.Key[i+1:]
+		obj := sp.Pkg.Scope().Lookup(tn)
+		if obj == nil {
+			return fmt.Errorf("field-constraint %s: no type %s", fc.Key, tn)
+		}
+		st, ok := obj.Type().Underlying().(*types.Struct)
+		if !ok {
+			return fmt.Errorf("field-constraint %s: not a struct", fc.Key)
+		}
+		found := false
+		for k := 0; k < st.NumFields(); k++ {
+			if st.Field(k).Name() == fn {
+				ls := safeLeaves(st.Field(k).Type())
+				if len(ls) != 1 {
+					return fmt.Errorf("field-constraint %s: field must have a single leaf", fc.Key)
+				}
+				fc.heapKey = objKey(obj.Type(), "."+fieldName(st, k)+ls[0].Path)
+				fc.ft = st.Field(k).Type()
+				e.fieldConByKey[fc.heapKey] = fc
+				found = true
+			}
+		}
+		if !found {
+			return fmt.Errorf("field-constraint %s: no such field", fc.Key)
+		}
+	}
+	return nil
 }
